@@ -34,8 +34,10 @@ func Range(start, end, step int) SortedInts {
 	}
 
 	if end < start {
-		start, end = end, start
+		//The elements are start, start+step, ..., so count upwards from the smallest of them.
 		step = -step
+		n := (start - end + step - 1) / step
+		start, end = start-(n-1)*step, start+1
 	}
 
 	tmp := make([]int, 0, (end-start+step-1)/step)
